@@ -192,7 +192,8 @@ def check(run):
     from .c06 import depends_on
     depends_on(run, "C10")
     depends_on(run, "C02", {"FORMULA", "SAME"}, only=lambda rule, inst: rule == "FORMULA" or "operator" in inst)         # PFI tracks the centred contribution mean(losses) - loss, not two raw losses
-    depends_on(run, "C12", {"TYPESTATE", "COPY"})
+    depends_on(run, "C12", {"TYPESTATE", "COPY", "ZERODIV"})    # a zero normaliser is tested, not left to an exception NumPy scalars never raise
+    depends_on(run, "C13", {"AGREE"}, only=lambda rule, inst: inst.startswith("dispatch"))      # a callable loss is handed on as it is (no re-typing of its values)
     depends_on(run, "C03", {"KEY"})             # the credits are tracked as differenced, not rescaled afterwards       # one tracker per key
     run.check(ok, "CHAIN", "raw-losses", sg.where(sg.L.line), sg.fq, f"chain losses: {why or 'as returned'}",
               f"the chain must difference the loss values as returned by the loss function: {why} (adding an offset before "
